@@ -94,6 +94,11 @@ func (c *Context) use(t reflect.Type, ops ...option) *Type {
 		op(config)
 	}
 
+	if t == nil {
+		// A map environment may hold a nil value: its type is unknown.
+		return &Type{Kind: "any"}
+	}
+
 	methods := make([]reflect.Method, 0)
 
 	// Methods of struct should be gathered from original struct with pointer,
